@@ -20,7 +20,7 @@ OPS = ("rfft", "ifft", "parseval", "fftconvolve", "correlate", "mspec")
 
 
 def REQUIRED(tier):
-    return [f"op:{o}" for o in OPS] + ["len:odd_good_size", "len:prime", "len:power_of_two", "direct_dft_checks", "op:rfft_after_longer", "class:max_zero", "input_unchanged_checks", "regime:second_operand_longer", "mspec:after_interpolated_request"]
+    return [f"op:{o}" for o in OPS] + ["len:odd_good_size", "len:prime", "len:power_of_two", "direct_dft_checks", "op:rfft_after_longer", "class:max_zero", "input_unchanged_checks", "regime:second_operand_longer", "mspec:after_interpolated_request", "correlate:operands_share_a_buffer", "rfft:after_in_place_edits"]
 
 
 def EXHAUSTIVE(tier):
@@ -209,6 +209,35 @@ def run_case(case, ctx):
                     ctx.nontrivial_case({"n": n, "m": m, "c": cls})
             if n >= 2:
                 ctx.nontrivial_case({"n": n, "c": cls, "op": "fft"})
+        # ---- two windows of one recording (their samples share a buffer): the correlation is that of the two windows, not of one with itself
+        if n >= 4 and not case.get("big"):
+            rec = _data(rng, n + 5, "normal")
+            kk = int(rng.integers(1, 6))
+            wa, wb = rec[:n], rec[kk : kk + n]
+            ctx.evaluated(); ctx.count("op:correlate"); ctx.count("correlate:operands_share_a_buffer")
+            try:
+                for other, lab in ((wb, "shifted window of the same buffer"), (wa[::-1], "reversed view of the same samples")):
+                    cr = TimeSeries(wa, _hdr(n)).correlate(other)
+                    wantr = np.correlate(wa.astype(np.float64), np.asarray(other, dtype=np.float64), mode="full")
+                    c = np.asarray(cr.data, dtype=np.float64)
+                    if c.size != wantr.size or np.max(np.abs(c - wantr)) > 1e-5 * float(np.linalg.norm(wa)) * float(np.linalg.norm(other)) * max(1.0, np.log2(2 * n) / 4):
+                        ctx.violation("correlate-values:operands-share-a-buffer", f"n={n}: correlation with a {lab} differs from sum_j x[j+lag]*y[j]", {"ns": [n], "seed": case["seed"], "cls": "shared_buffer"})
+                        break
+            except Exception as exc:  # noqa: BLE001
+                ctx.violation(f"correlate-raised:{type(exc).__name__}@{exc_site(exc)}", f"n={n}: {fmt_exc(exc)}", {"ns": [n], "seed": case["seed"], "cls": "shared_buffer"})
+        # ---- the transform of a series describes the samples it holds now: edit in place, transform again
+        if n >= 2 and not case.get("big") and n % 4 == 2:
+            ya = _data(rng, n, "normal").copy()
+            tsm = TimeSeries(ya, _hdr(n))
+            f1 = tsm.rfft()
+            np.asarray(f1.data)[...] = 0            # the caller zaps the spectrum it was given
+            np.asarray(tsm.data)[n // 2] += 25.0     # and injects a pulse into the live array
+            f2 = tsm.rfft()
+            L2 = int(f2.header.nsamples)
+            ctx.evaluated(); ctx.count("op:rfft"); ctx.count("rfft:after_in_place_edits")
+            want2 = _dft(np.asarray(tsm.data, dtype=np.float64), L2) if L2 <= 512 else np.fft.rfft(np.asarray(tsm.data, dtype=np.float64), L2)
+            if np.max(np.abs(np.asarray(f2.data).astype(np.complex128) - want2)) > 1e-5 * float(np.linalg.norm(np.asarray(tsm.data, dtype=np.float64))) * max(1.0, np.log2(L2 + 1) / 4):
+                ctx.violation("rfft-values:after-in-place-edits", f"n={n}: rfft() called again after the series (and the earlier spectrum) were edited in place does not describe the current samples", {"ns": [n], "seed": case["seed"], "cls": "edited"})
         # ---- a shorter series transformed right after a longer one that pads to the same length (stale work buffers)
         if n >= 3 and not case.get("big"):
             for k in (1, 2):
